@@ -454,6 +454,20 @@ class NPFacade:
             return _elementwise(lambda x: True if is_sym(x) else _m.isfinite(x), a)
         return real_np.isfinite(a, **kw)
 
+    def isnan(self, a, **kw):
+        if has_sym(a):
+            import math as _m
+
+            return _elementwise(lambda x: False if is_sym(x) else _m.isnan(x), a)
+        return real_np.isnan(a, **kw)
+
+    def isinf(self, a, **kw):
+        if has_sym(a):
+            import math as _m
+
+            return _elementwise(lambda x: False if is_sym(x) else _m.isinf(x), a)
+        return real_np.isinf(a, **kw)
+
     def clip(self, a, a_min=None, a_max=None, **kw):
         if has_sym(a) or is_sym(a_min) or is_sym(a_max):
             def f(x):
